@@ -742,6 +742,14 @@ func (env *Env) call(x *ECall) SVal {
 		re := env.value(env.eval(x.Args[0]))
 		str := env.value(env.eval(x.Args[1]))
 		return b(app(d.Fun("regexp_MatchString", []string{"Ref", "Str"}, "Bool"), re.T, str.T))
+	case "trimPrefix", "cat":
+		// trimPrefix(s, p) = strings.TrimPrefix, cat(s, t) = s + t: the uninterpreted functions of the code model
+		l := env.value(env.eval(x.Args[0]))
+		r := env.value(env.eval(x.Args[1]))
+		if x.Fn == "cat" {
+			return SVal{T: app("str_cat", l.T, r.T), Typ: tString, Sort: "Str"}
+		}
+		return SVal{T: app(d.Fun("strings_TrimPrefix", []string{"Str", "Str"}, "Str"), l.T, r.T), Typ: tString, Sort: "Str"}
 	case "dstring":
 		// the exact decimal string of a number (decimal.Decimal.String)
 		v := env.value(env.eval(x.Args[0]))
